@@ -2,12 +2,17 @@
 # selftest.sh PROP : must-fail self-test of a check (thorough tier). Every seeded change recorded in seeded/caught.json as
 # caught by PROP's check is applied to a scratch copy of /repo's working tree (outside /repo and /verif, removed afterwards)
 # and PROP's check is run on the copy: it must report a violation. Prints "SELFTEST prop=P seeds=N caught=M missed=<ids>".
+# SELFTEST_MAX (default 2, 0 = all) bounds the number of seeds per run.
 # A seed whose patch no longer applies to the working tree (the tree was changed) is skipped, not counted.
 P=$1
 SEEDS=$(python3 -c "
 import json
 d=json.load(open('/verif/seeded/caught.json'))
-print(' '.join(sorted(k for k,v in d.items() if '$P' in v)))")
+l=sorted(k for k,v in d.items() if '$P' in v)
+m=int('${SELFTEST_MAX:-2}')
+# at most SELFTEST_MAX seeds (default 2: the first and the last recorded for the property) to bound the run time
+if m>0 and len(l)>m: l=l[:m-1]+l[-1:]
+print(' '.join(l))")
 S=$(mktemp -d /tmp/gowp-selftest-XXXXXX)
 trap 'rm -rf $S /tmp/gowp-scratch-out' EXIT
 (cd /repo && tar --exclude=.git -cf - .) | tar -xf - -C $S
